@@ -85,6 +85,24 @@ def c_snapshot(c):
         d = RI.RandObjInt().get_randstate()
         c.prove("without an explicit state the default is derived from exactly one draw of the global random module",
                 log == [("global.randint", 0, 0xFFFFFFFF)] and d.rng.getstate() == ("S", ("seeded", "12345"), 0))
+    # seeds are derived without process-dependent values: hash() / id() are trip-wires in the module
+    trip = []
+
+    def _tw(name):
+        def f(*a, **k):
+            trip.append(name)
+            return 12345            # the use is logged; the obligation below fails
+        return f
+    g2 = GhostRandomModule(log)
+    with patched((RS, "random", g2), (RS, "hash", _tw("hash")), (RS, "id", _tw("id"))):
+        s1 = RS.RandState.mkFromSeed(7, "top.env.agent0")
+        s2 = RS.RandState.mkFromSeed(7, "top.env.agent0")
+        s3 = RS.RandState.mkFromSeed(7)
+        s4 = RS.RandState.mkFromSeed(7, "other")
+    c.prove("mkFromSeed derives the generator seed from (seed, string) only: no hash()/id(), equal inputs give equal states, "
+            "different strings give different states",
+            trip == [] and s1.rng.getstate() == s2.rng.getstate() and s1.rng.getstate() != s4.rng.getstate()
+            and s3.rng.getstate() == ("S", ("seeded", "7"), 0))
     # facade: get_randstate returns an independent snapshot
     import vsc
 
